@@ -9,7 +9,8 @@ Case lines (shared with harness/c06/c06.c and harness/mudlib/c06/main.c):
   push s | pushr s | pop | popto d                                  (unit mode only)
   newobj o | setvar o i s | getvar d o i | oref d o | dest o | cleanup | drop o
   call k o st s t | rmcall k | sweep | sent k o s t | rmsent k | inp o s t | input
-  err s t | efun f s t                                              (lpc mode only)
+  err s t | efun f s t | srange d i j w                              (lpc mode only)
+  sappend d w | sjoin d t | sadd d s w | schar d i c                (strings are values: v[d] += "w" ...)
 
 Output, one line per operation:  `ok r:<ref of every visible cell, x = freed> st:<counters>` | `skip` |
 `uaf` / `fatal` / ... (the case stops there).
@@ -57,6 +58,11 @@ def parseOp (line : String) : Option Op :=
   | ["rmsent", a] => do some (.rmsent (← n? a))
   | ["err", a, b] => do some (.err (← n? a) (← n? b))
   | ["efun", a, b, c] => do some (.efun (← n? a) (← n? b) (← n? c))
+  | ["sappend", a, w] => do some (.sappend (← n? a) w)
+  | ["sjoin", a, b] => do some (.sjoin (← n? a) (← n? b))
+  | ["sadd", a, b, w] => do some (.sadd (← n? a) (← n? b) w)
+  | ["schar", a, b, w] => do some (.schar (← n? a) (← n? b) w)
+  | ["srange", a, b, c, w] => do some (.srange (← n? a) (← n? b) (← n? c) w)
   | ["inp", a, b, c] => do some (.inp (← n? a) (← n? b) (← n? c))
   | ["input"] => some .input
   | ["clones", a] => do some (.clones (← n? a))
@@ -88,7 +94,6 @@ def unitOnly : Op → Bool
   | .pop => true
   | .popto _ => true
   | .oref _ _ => true
-  | .newmstr _ _ => true
   | .newstr _ _ => true
   | .clones _ => true
   | .unclone _ => true
@@ -97,6 +102,7 @@ def unitOnly : Op → Bool
 def lpcOnly : Op → Bool
   | .err _ _ => true
   | .efun _ _ _ => true
+  | .srange _ _ _ _ => true
   | _ => false
 
 def renderRefs (h : List Cell) : String :=
@@ -144,6 +150,12 @@ def nameRefs (s : St) : Nat :=
   ((List.range nCalls).filter (fun k => !isNumRoot s (rCall k))).length +
   ((List.range nSents).filter (fun k => !isNumRoot s (rSent k))).length
 
+/-- the text every variable sees (value-level observation): `-` = not a string -/
+def renderTexts (s : St) : String :=
+  ",".intercalate ((List.range nSlots).map (fun i => match strSlot s i with
+    | some (_, cell) => cell.text
+    | none => "-"))
+
 def renderState (noAllocd : Bool) (s : St) (p : PSt) : String :=
   let st := { s.stats with objects := s.stats.objects + p.anon }
   let pr := if p.pfreed then "x" else toString p.pref
@@ -152,7 +164,7 @@ def renderState (noAllocd : Bool) (s : St) (p : PSt) : String :=
       s!"{st.numArrays},{st.arrayBytes},{st.numMappings},{st.mapNodes},-,-,{st.objects}"
     else renderStats noAllocd st
   let fr := if p.pfreed then "-" else toString (nameRefs s)
-  s!"ok r:{renderRefs s.heap} st:{sts} p:{pr} f:{fr}"
+  s!"ok r:{renderRefs s.heap} st:{sts} p:{pr} f:{fr} t:{renderTexts s}"
 
 def applies : Op → Bool
   | .newobj _ => true
